@@ -390,5 +390,20 @@ theorem step_pushes_le (s : State) (st : Stmt) : (step s st).1.h.pushes ≤ s.h.
         · simp [drop_pushes, readPath_pushes, readVar, dup_pushes]
         · split <;> simp [withCell, drop_pushes, setIndex_pushes, readPath_pushes, readVar, dup_pushes]
     · simp
+  | update y x i a =>
+    simp only [step]
+    split
+    · split <;> simp [writeCell, drop_pushes, setIndex_pushes, evalAtom_pushes, readVar, dup_pushes]
+    · simp
+  | callAppend y x a =>
+    simp only [step]
+    split
+    · split
+      · simp only [writeCell, drop_pushes]
+        refine Nat.le_trans (appendOp_pushes_le _ _ _) ?_
+        simp [evalAtom_pushes, readVar, dup_pushes]
+      · refine Nat.le_trans (appendOp_pushes_le _ _ _) ?_
+        simp [evalAtom_pushes, readVar, dup_pushes]
+    · simp
 
 end Noulith.RcHeap
